@@ -20,6 +20,7 @@ TNext == \/ Reset
          \/ Is("Put") /\ l' = l + 1 /\ EPut /\ eact = T.i /\ T.v = Val(T.i, epos') /\ UNCHANGED obs
          \/ Is("CbEnd") /\ l' = l + 1 /\ EEnd /\ eact = T.i /\ T.res = ecfg.res[T.i] /\ UNCHANGED obs
          \/ Is("Returned") /\ l' = l + 1 /\ EReturn /\ obs' = [out |-> T.out, errs |-> Range(T.errs), nbrk |-> T.nbrk]
+            /\ T.other = <<>> /\ T.nintr = 0
 TSpec == TInit /\ [][TNext]_tvars
 EachObsOK == eret => obs.out = eout /\ obs.errs = eexc /\ obs.nbrk = 0
 HW == TLCSet(1, IF TLCGet(1) > l THEN TLCGet(1) ELSE l)
